@@ -36,7 +36,7 @@ def correspond(ctx):
         "no configuration is both a pre-task and an init task of the loaded task; init task lists hold no duplicates",
         "post-initialisation 'after its parameters are set' is read as: after the object's own parameters are assigned (in a cycle a referenced object may not be filled yet)",
     ]
-    libs, cases = seriallib.make_cases(ctx, rng, "c13", ctx.scale(6, 36), ctx.scale(40, 140), "c13")
+    libs, cases = seriallib.make_cases(ctx, rng, "c13", ctx.scale(6, 60), ctx.scale(80, 200), "c13")
     recs = seriallib.run(ctx, libs, cases, shards=ctx.scale(8, 12))
     seriallib.evaluate(ctx, libs, cases, recs, "call log / constructed objects")
     if not ctx.quick():
